@@ -163,7 +163,8 @@ def run_case(c):
     data = res['data']
     if data != ref:
         k = next((i for i in range(min(len(data), len(ref))) if data[i] != ref[i]), min(len(data), len(ref)))
-        why = 'prior-content-survives' if c['pre'] != 'absent' and len(data) != len(ref) else 'bytes'
+        why = 'prior-content-survives' if (c['pre'] == 'long' and len(data) > len(ref) and data.endswith(b'\xff' * 8)) \
+            or (c['pre'] == 'short' and data.startswith(b'GARBAGE')) else 'bytes'
         viol.append((f"C10:e2e:differs-from-reference:{why}",
                      f"file ({len(data)} B) differs from reference ({len(ref)} B) at byte {k} | {c}"))
     try:
